@@ -675,3 +675,20 @@ def trapping_arith_sites(body):
             if st in INT_TYPES:
                 out.append((b, "Overflow(%s on %s)" % (last_seg(t["func"]["declared"]), subs[0]), t["args"], t["sp"]))
     return out
+
+
+def equality_edges(body, st):
+    """CFG edges on which the two operands of the Eq / Ne comparison `st` (an assign statement) are equal."""
+    op = st["rv"]["op"]
+    if op not in ("Eq", "Ne"):
+        return set()
+    d = st["place"]["l"]
+    out = set()
+    for x in range(body.n):
+        tt = body.term(x)
+        if tt and tt["k"] == "switch" and tt["discr"]["k"] in ("copy", "move") and tt["discr"]["place"]["l"] == d and not tt["discr"]["place"]["p"]:
+            zero_t = {tg for v, tg in tt["targets"] if v == 0}
+            for s_ in body.succs(x):
+                if (s_ not in zero_t) == (op == "Eq"):
+                    out.add((x, s_))
+    return out
